@@ -752,6 +752,13 @@ class Engine:
                 items = coll.items
             elif isinstance(coll, Custom) and hasattr(coll.h, "iterate"):
                 items = coll.h.iterate(self, q)
+            if items is None and isinstance(coll, NoneV):
+                # Python: iterating None raises TypeError ('NoneType' object is not iterable)
+                q.ctl = ("raise", "TypeError")
+                q.trace.append(("raise", st.lineno))
+                q.ghost["raise_reason"] = f"iteration over None at L{st.lineno}"
+                outs.append(q)
+                continue
             if items is None:
                 raise Unsupported(f"for over {type(coll).__name__} in {self.cur_func} L{st.lineno}")
             live = [q]
